@@ -14,9 +14,10 @@ for id in $ids; do
   if ! (cd $S && patch -p1 -s < /verif/seeded/$id/patch.diff); then
     echo "$id: patch does not apply"; fail=1; rm -rf $S; continue
   fi
-  out=$(PALLAS_REPO=$S ./check $id --tier quick 2>&1); rc=$?
-  if [ $rc -eq 1 ] && echo "$out" | grep -q "^VIOLATION property=$id "; then
-    echo "$id: mutation reported:"; echo "$out" | grep "^\[$id\] violation" | cut -c1-220
+  prop=$(jq -r '.property // empty' seeded/$id/meta.json 2>/dev/null | cut -c1-3); [ -z "$prop" ] && prop=${id%%-*}
+  out=$(PALLAS_REPO=$S ./check $prop --tier quick 2>&1); rc=$?
+  if [ $rc -eq 1 ] && echo "$out" | grep -q "^VIOLATION property=$prop "; then
+    echo "$id: mutation reported:"; echo "$out" | grep "^\[$prop\] violation" | cut -c1-220
   elif [ $rc -eq 0 ] && grep -q '"result": "MISSED' seeded/$id/meta.json; then
     echo "$id: not reported — documented miss (outside the claimed clause, see seeded/$id/meta.json)"
   else
